@@ -48,6 +48,30 @@ def innermost(tb):
     return fn
 
 
+def build_shared(s, memo):
+    import json
+    k = json.dumps(s)
+    if k not in memo:
+        kind = s[0]
+        if kind in ("int", "id", "regid"):
+            memo[k] = build(s)
+        else:
+            from miasmx.expression import expression as ex
+            if kind == "mem":
+                memo[k] = ex.ExprMem(build_shared(s[1], memo), s[2], build_shared(s[3], memo) if s[3] is not None else None)
+            elif kind == "op":
+                memo[k] = ex.ExprOp(s[1], *[build_shared(a, memo) for a in s[2]])
+            elif kind == "cond":
+                memo[k] = ex.ExprCond(build_shared(s[1], memo), build_shared(s[2], memo), build_shared(s[3], memo))
+            elif kind == "slice":
+                memo[k] = ex.ExprSlice(build_shared(s[1], memo), s[2], s[3])
+            elif kind == "compose":
+                memo[k] = ex.ExprCompose([(build_shared(x, memo), a, b) for x, a, b in s[1]])
+            else:
+                memo[k] = build(s)
+    return memo[k]
+
+
 def judge(s, nval=NVAL, salt=0):
     """None, or (kind, detail) for script s"""
     from miasmx.expression import expression_helper as eh
@@ -56,7 +80,9 @@ def judge(s, nval=NVAL, salt=0):
     bound = 2000 * nodes
     r = None
     for attempt in range(3):
-        e = build(s)
+        # equal sub-scripts are ONE object (a DAG), as in lifted code where al, ah, eax[8:16] ... are shared module-level nodes:
+        # a rule that edits a node in place then damages the other occurrences, and the value of the result shows it
+        e = build_shared(s, {})
         _counter[0], _counter[1] = 0, bound
         try:
             r = eh.expr_simp(e)
